@@ -12,6 +12,7 @@ HARNESSES = [
     {"fn": "h_consider", "cases": ["k:0", "k:1", "k:2", "k:3"] + LARGE, "quick_cases": ["k:0", "k:2", LARGE[0]],
      "timeout": {"quick": 90, "thorough": 600}},
     {"fn": "h_lookup", "cases": [""], "timeout": {"quick": 60, "thorough": 300}},
+    {"fn": "h_lookup_cli", "cases": ["first:d1", "second:d2"], "quick_cases": ["first:d1"], "timeout": {"quick": 60, "thorough": 300}},
     {"fn": "h_mapping", "cases": ["list:sw", "list:sev", "count:sw6", "all:sw6", "count:sev"], "quick_cases": ["list:sev", "all:sw6"],
      "timeout": {"quick": 90, "thorough": 300}},
 ]
@@ -147,3 +148,12 @@ def concrete_choice(x, n):
         if x == cand:
             return cand
     return 0
+
+
+def h_lookup_cli() -> bool:
+    """
+    post: _
+    """
+    # the same sentence through the real command line (--bmc-id N, hidden / non-serviceable log, N includes 0)
+    from harness import C10_lookup
+    return C10_lookup.bmc_body()
